@@ -22,7 +22,7 @@ def _run_task(task):
             ex = Executor(prog, core_schema(), R["contracts"], inline=R["inline"])
             ex.loop_specs.update(R["loops"])
             q = task["qualname"]
-            c = R["contracts"][q]
+            c = R["contracts"].get(q) or R["getter_contracts"][q]
             ver = R["verifiers"][q]
             opt = R.get("options", {}).get(q, {})
             ex.merge_enabled = opt.get("merge", True)
